@@ -2,7 +2,7 @@
 Shared driver for the control-connection core (C01, C02, C03): a real
 TorControlProtocol on a Wire, with every submission and every firing recorded.
 """
-from twisted.internet import error
+from twisted.internet import error, defer
 from twisted.python import failure
 
 from txtorcon.torcontrolprotocol import TorControlProtocol, TorProtocolError, TorDisconnectError
@@ -14,7 +14,7 @@ from refs import ctlcodec
 class Sub(object):
     """one submitted command"""
     __slots__ = ('idx', 'kind', 'name', 'line', 'rec', 'cb_args', 'on_result', 'on_line',
-                 'submitted_seq', 'result_seq')
+                 'submitted_seq', 'result_seq', 'raised')
 
     def __init__(self, idx, kind, name, line):
         self.idx = idx
@@ -27,6 +27,7 @@ class Sub(object):
         self.on_line = []
         self.submitted_seq = None
         self.result_seq = None
+        self.raised = None
 
 
 class Ctl(object):
@@ -62,14 +63,22 @@ class Ctl(object):
                 h()
 
         self.log.append('submit #%d %s %r' % (idx, kind, line))
-        if kind == 'P':
-            d = self.proto.queue_command(line)
-        elif kind == 'K':
-            d = self.proto.queue_command(line, line_cb)
-        elif kind == 'I':
-            d = self.proto.get_info_incremental(name, line_cb)
-        else:
-            raise HarnessError(kind)
+        try:
+            if kind == 'P':
+                d = self.proto.queue_command(line)
+            elif kind == 'K':
+                d = self.proto.queue_command(line, line_cb)
+            elif kind == 'I':
+                d = self.proto.get_info_incremental(name, line_cb)
+            else:
+                raise HarnessError(kind)
+        except HarnessError:
+            raise
+        except Exception as e:
+            # the submission itself raised into the caller
+            s.raised = e
+            self.log.append('  -> raised %s: %s' % (type(e).__name__, e))
+            d = defer.Deferred()
 
         def fired(x, s=s):
             if s.result_seq is None:
